@@ -1,8 +1,62 @@
-import Magog.Model.Eval
-import Magog.Model.Time
+import Magog.Lemmas.SearchIter
+import Magog.Lemmas.SearchExamples
 
-/-! Property C03 — theorems (see DESIGN §5). -/
+/-! Property C03 — every `go` is answered by exactly one `bestmove`, and it is the last line printed.
+
+All statements are partial-correctness statements about the search model `Model.iterDeep` (hypothesis
+`iterDeep … = .ok s`; a model panic is a different property), valid for every `env` (any oracle answers, any
+`sortFn`, `blend`, `logInterval`), any killer table and any initial `rows` / `len0`.
+`s.out` lists the output events most recent first. -/
 
 namespace Magog.Props.C03
+open Magog Magog.Model
+
+/-- Exactly one event of the output of a search is a `bestmove` (`bestmove m` or `bestmove 0000`), and it is the
+    last thing printed (the head of `s.out`). It is `bestmove 0000` iff the root line found by iteration 1 was empty
+    (`rowPrefix s1 0 l = []` for the result `(score, one, l, s1)` of the depth-1 call of `startAlphaBeta` on the
+    initial state); in that case the event printed just before it is `infoTerminal score` and everything before
+    that was printed by iteration 1. -/
+theorem C03_one_bestmove {env : Env} {qfuel : Nat} {p : Position} {maxDepth : Nat} {killers : Killers}
+    {rows : Array (Array Move)} {len0 : Nat} {s : SS}
+    (h : iterDeep env qfuel p maxDepth killers rows len0 = .ok s) :
+    ∃ e rest, s.out = e :: rest ∧ e.isBest = true ∧ (∀ e' ∈ rest, e'.isBest = false) ∧
+      s.out.countP Event.isBest = 1 ∧
+      ∃ score one l s1,
+        startAlphaBeta env qfuel p 1 len0 (initSS rows killers) = .ok (score, one, l, s1) ∧
+        (e = .bestmoveNone ↔ rowPrefix s1 0 l = []) ∧
+        (e = .bestmoveNone → rest = .infoTerminal score :: s1.out) ∧
+        (e ≠ .bestmoveNone → ∃ m, e = .bestmove m) := by
+  obtain ⟨score, one, l, s1, added1, hsab, e1, p1, hc⟩ := iterDeep_shape h
+  have hb1 : ∀ e ∈ added1, e.isBest = false := fun e he =>
+    isIterEvent_not_isBest (isSearchInfo_isIterEvent (p1 e he).1)
+  rcases hc with ⟨hemp, hout, _⟩ | ⟨hne, best, done, nodes, added, m, tl, _, hout, p2, _⟩
+  · have hrest : ∀ e' ∈ Event.infoTerminal score :: added1, e'.isBest = false := by
+      intro e' he'
+      rcases List.mem_cons.1 he' with rfl | he'
+      · rfl
+      · exact hb1 e' he'
+    refine ⟨.bestmoveNone, .infoTerminal score :: added1, hout, rfl, hrest, ?_, score, one, l, s1, hsab,
+      ⟨fun _ => hemp, fun _ => rfl⟩, fun _ => by rw [e1], fun hx => absurd rfl hx⟩
+    rw [hout, List.countP_cons_of_pos rfl, List.countP_eq_zero.2 (by simpa using hrest)]
+  · have hrest : ∀ e' ∈ Event.infoPv best done nodes (m :: tl) :: (added ++ added1), e'.isBest = false := by
+      intro e' he'
+      rcases List.mem_cons.1 he' with rfl | he'
+      · rfl
+      rcases List.mem_append.1 he' with he' | he'
+      · exact isIterEvent_not_isBest (p2 e' he').1
+      · exact hb1 e' he'
+    refine ⟨.bestmove m, _, hout, rfl, hrest, ?_, score, one, l, s1, hsab,
+      ⟨fun hx => (nomatch hx), fun hx => absurd hx hne⟩, fun hx => (nomatch hx), fun _ => ⟨m, rfl⟩⟩
+    rw [hout, List.countP_cons_of_pos rfl, List.countP_eq_zero.2 (by simpa using hrest)]
+
+open SearchExamples in
+/-- non-vacuity: a concrete successful run ending in `bestmove m` (Ka1 vs Kh8, `go depth 2`) and one ending in
+    `bestmove 0000` (stalemate), both evaluated in the kernel -/
+example : (∃ s, iterDeep quietEnv 3 kkPos 2 Killers.empty (newRows 6) 6 = .ok s) ∧
+    (∃ s rest, iterDeep quietEnv 3 stalePos 3 Killers.empty (newRows 6) 6 = .ok s ∧
+      s.out = .bestmoveNone :: rest) := by
+  obtain ⟨s, _, _, _, _, _, hs, _, _⟩ := endsWithBest_elim quiet_run2
+  obtain ⟨s', rest, hs', ho⟩ := endsWithNone_elim stale_run
+  exact ⟨⟨s, hs⟩, s', rest, hs', ho⟩
 
 end Magog.Props.C03
